@@ -18,11 +18,18 @@ Lemma w_garbage_broken : wf w_garbage = true /\ closed_world w_garbage = true /\
 Proof. vm_compute. repeat split; reflexivity. Qed.
 Lemma w_prefix_fails : in_class (kf_prefix w_prefix) w_prefix false /\ in_class (kf_prefix w_prefix2) w_prefix2 false.
 Proof. vm_compute. repeat split; reflexivity. Qed.
-Lemma w_zod_enum_fails : in_class (kf_zod_enum w_zod_enum true) w_zod_enum true /\ c02_ok (gen w_zod_enum false) = true.
+(* repaired defects: the former witnesses now satisfy the property, outside every class *)
+Definition repaired (p : proj) (zod : bool) : Prop :=
+  wf p = true /\ closed_world p = true /\ refs_declared p = true /\ kf_C02 p zod = false /\ c02_ok (gen p zod) = true.
+Lemma w_zod_enum_repaired : repaired w_zod_enum true /\ repaired w_zod_enum false.
 Proof. vm_compute. repeat split; reflexivity. Qed.
-Lemma w_result1_fails : in_class (kf_result_one_arg w_result1) w_result1 false.
+Lemma w_result1_repaired : repaired w_result1 false /\ repaired w_result1 true.
 Proof. vm_compute. repeat split; reflexivity. Qed.
-Lemma w_event_nested_fails : in_class (kf_event_nested w_event_nested) w_event_nested false.
+Lemma w_event_nested_repaired : repaired w_event_nested false /\ repaired w_event_nested true.
+Proof. vm_compute. repeat split; reflexivity. Qed.
+Lemma w_same_event_twice_repaired : repaired w_same_event_twice false /\ repaired w_same_event_twice true.
+Proof. vm_compute. repeat split; reflexivity. Qed.
+Lemma w_ipc_channel_ok : repaired w_ipc_channel false /\ repaired w_ipc_channel true.
 Proof. vm_compute. repeat split; reflexivity. Qed.
 Lemma w_event_head_fails : in_class (kf_event_head w_event_head) w_event_head false.
 Proof. vm_compute. repeat split; reflexivity. Qed.
@@ -33,5 +40,5 @@ Proof. vm_compute. repeat split; reflexivity. Qed.
 
 Theorem closed_world_refuted : exists p zod,
   wf p = true /\ closed_world p = true /\ ~ (closed (gen p zod) /\ exports_nodup (gen p zod)).
-Proof. exists w_zod_enum, true. destruct w_zod_enum_fails as [[Hw [Hc [_ Hf]]] _]. split; [exact Hw|]. split; [exact Hc|].
+Proof. exists w_prefix, false. destruct w_prefix_fails as [[Hw [Hc [_ Hf]]] _]. split; [exact Hw|]. split; [exact Hc|].
   intros H. apply c02_ok_iff in H. rewrite Hf in H. discriminate. Qed.
